@@ -1,7 +1,7 @@
 """C01 — GJK distance: feasible, consistent, optimal (structural clauses)."""
 from . import scopes
 from ..core.report import DOMAIN_D
-from ..rules import mink, simplex, loops, buffers, clip, runmin, unpack, ericson, misc2
+from ..rules import colliders, mink, simplex, loops, buffers, clip, runmin, unpack, ericson, misc2
 
 J = "distance3d.gjk._gjk_jolt"
 
@@ -31,4 +31,6 @@ def run(idx, rep, tier):
     runmin.r_runmin(idx, rep, [J], floor=2)
     ericson.r_ericson(idx, rep)
     misc2.r_dupcond(idx, rep, [m.name for m in idx.lib_modules()], floor=3)
+    colliders.r_coherence(idx, rep, relevant_to="support_function")      # the colliders of the statement include colliders that were moved with update_pose: a stale attribute changes the support mapping the solver sees
+    misc2.r_adjacency(idx, rep)      # mesh colliders answer support queries by hill climbing over this adjacency
     unpack.r_unpack(idx, rep, floor=15)
